@@ -2,6 +2,7 @@ package kvh
 
 import (
 	"bytes"
+	"encoding/json"
 	"errors"
 	"fmt"
 	"os"
@@ -183,6 +184,8 @@ type Runner struct {
 	OnClosed      func(r *Runner) *Fail // called between Close and Open of a reopen (C13)
 	OnMergeResult func(err error) *Fail // judge the return value of Merge (C06, C17)
 	LastMergeErr  error
+	journal       *os.File
+	journalPath   string
 	sinceFull     int
 	lastIter      *IterFeatures
 	lastFileNum   int
@@ -201,6 +204,7 @@ func NewRunner(property string, opt Opt, io *IOLog) (*Runner, *Fail) {
 	r.F.dirtySince = map[string]bool{}
 	r.Base = e.NewDir(strings.ToLower(property))
 	r.Dir = filepath.Join(r.Base, "db")
+	r.openJournal(property, opt)
 	if f := r.open(opt); f != nil {
 		r.Cleanup()
 		return nil, f
@@ -225,8 +229,44 @@ func (r *Runner) open(opt Opt) (fail *Fail) {
 	return nil
 }
 
+// The journal makes the case in flight survive an unrecoverable death of the
+// process (Go runtime fatal error, uncaught signal): a header line and one
+// line per op, written before the op executes. The driver turns the journal of
+// a dead worker into the replay artefact.
+func (r *Runner) openJournal(property string, opt Opt) {
+	e := r.Env
+	path := filepath.Join(e.Out, fmt.Sprintf("current-%s-%d.jsonl", property, e.Shard))
+	f, err := os.Create(path)
+	if err != nil {
+		return
+	}
+	r.journal, r.journalPath = f, path
+	hdr, _ := json.Marshal(map[string]any{"property": property, "kind": "history", "options": opt})
+	_, _ = f.Write(append(hdr, '\n'))
+}
+
+func (r *Runner) journalOp(op *Op) {
+	if r.journal == nil {
+		return
+	}
+	b, err := json.Marshal(op)
+	if err != nil {
+		return
+	}
+	_, _ = r.journal.Write(append(b, '\n'))
+}
+
+func (r *Runner) closeJournal() {
+	if r.journal != nil {
+		_ = r.journal.Close()
+		_ = os.Remove(r.journalPath)
+		r.journal = nil
+	}
+}
+
 // Cleanup closes the database (ignoring errors) and removes the scratch dir.
 func (r *Runner) Cleanup() {
+	r.closeJournal()
 	if r.DB != nil && !r.closed {
 		func() {
 			defer func() { _ = recover() }()
@@ -396,6 +436,7 @@ func (r *Runner) ActiveOffset() int64 {
 func (r *Runner) Step(op Op) (fail *Fail) {
 	r.Ops = append(r.Ops, op)
 	r.F.Steps++
+	r.journalOp(&op)
 	// a SIGBUS/SIGSEGV from a stale mapping becomes a recoverable panic of this goroutine
 	debug.SetPanicOnFault(true)
 	defer func() {
